@@ -72,6 +72,4 @@ claim("C18",
       "table agreement between writer and reader of each encoding: (URL key, field) sets of ToURLQuery/FromURLQuery, (message field, struct field) tables and oneof-presence discrimination of the protobuf decoders, separator sequences of String/FromString, unmodified line hand-off in the tuple file parser, JSON name uniqueness",
       "Decides that both directions of each relationship encoding refer to the same keys, fields and separators and that the subject kind is decided by presence; does not decide round-trip equality over all strings or escaping. Right level: writer/reader table agreement is a static comparison of two functions.")
 
-for p in ["C04","C05","C06","C07","C08","C09","C11","C12","C13","C14","C16","C18","C19"]:
-    na(p, NOTBUILT)
 na("C10", "semantic equivalence between the parser's output and TypeScript's grammar over all programs: precedence/associativity is not a code shape every correct parser shares; no sound structural necessary condition found (and the property is known to be violated: a||b&&c parses as (a||b)&&c), so a static green light would be misleading")
